@@ -55,6 +55,10 @@ type Scenario struct {
 	Race    *RaceCase    `json:"race,omitempty"`
 	Pipe    *PipeCase    `json:"pipe,omitempty"`
 	Adapter *AdapterCase `json:"adapter,omitempty"`
+	Single  *SingleCase  `json:"single,omitempty"`
+	// StallMs: subscribers that stop receiving stay away at least this long before they cancel (writers parked on
+	// them stay parked: a collection write has no deadline of its own)
+	StallMs int `json:"stallMs,omitempty"`
 	// LingerAt: every goroutine reaching this yield point sleeps LingerUs there (widens a window)
 	LingerAt string `json:"lingerAt,omitempty"`
 	LingerUs int    `json:"lingerUs,omitempty"`
@@ -466,6 +470,9 @@ func runStress(sc Scenario) (out Outcome) {
 	tA := bound
 	if mayBlock {
 		tA = time.Duration(maxTimer)*time.Microsecond + 30*time.Millisecond
+		if stall := time.Duration(sc.StallMs) * time.Millisecond; stall > tA {
+			tA = stall
+		}
 	}
 	writersDone := waitWriters(tA)
 
